@@ -23,7 +23,7 @@ COMPONENTS = {"real": ["pyjelly parse.ioutils (framing detection, frame iterator
                        "writer in half of the runs: simkit.refenc"]}
 ASSUMPTIONS = ["blocking binary sources only (readinto never returns None)",
                "seekable sources are buffered (documented input contract)"]
-PROBES = ["first_read_lt3", "first_read_1", "frontend_raw", "frontend_buffered", "frontend_gzip", "frontend_duck",
+PROBES = ["preamble_runs", "gzip_multi_member", "first_read_lt3", "first_read_1", "frontend_raw", "frontend_buffered", "frontend_gzip", "frontend_duck",
           "frontend_rwpair",
           "frontend_seekable_buffered", "nondelimited", "leading_empty_frames", "short_reads_ge10"]
 SHRINK_LISTS = ["ops", "items"]
@@ -43,9 +43,14 @@ def generate(rng, run, tier):
         plan["integration"] = integration
         plan["knobs"]["leading_empty"] = rng.random() < 0.5
     plan["consumer"] = rng.choice(["flat", "flat", "grouped", "to_graph", "plugin"])
-    plan["frontend"] = rng.choice(["raw", "raw", "buffered", "buffered", "seekable_buffered", "gzip", "duck", "rwpair"])
+    plan["frontend"] = rng.choice(["raw", "raw", "buffered", "buffered", "seekable_buffered", "seekable_buffered", "gzip",
+                                   "duck", "rwpair", "bytesio"])
     plan["policy"] = rng.choice(["tape", "tape", "tape", "one"])
     plan["bufsize"] = rng.choice([None, None, 1, 2, 3, 4, 16, 8192])
+    # the caller may have consumed a preamble from a seekable file before handing it over; the payload then
+    # starts anywhere relative to the reader's buffer boundary (8190..8193 straddle the default 8 KiB buffer)
+    plan["preamble"] = rng.choice([0, 0, 0, 1, 2, 5, 8190, 8191, 8192, 8193])
+    plan["members"] = rng.choice([None, None, [1], [2], [3], [2, 5], [1, 2, 3]])
     return plan
 
 
@@ -95,7 +100,13 @@ def execute(plan, sim):
     base = consume(plan, io.BytesIO(data), physical)
     fe = plan["frontend"]
     sim.count("frontend_" + fe)
-    fobj, pipe = open_frontend(fe, sim, data=data, policy=plan["policy"], bufsize=plan.get("bufsize"))
+    pre = b"P" * int(plan.get("preamble") or 0) if fe in ("bytesio", "seekable_buffered") else b""
+    if pre:
+        sim.count("preamble_runs")
+    if fe == "gzip" and plan.get("members"):
+        sim.count("gzip_multi_member")
+    fobj, pipe = open_frontend(fe, sim, data=data, policy=plan["policy"], bufsize=plan.get("bufsize"),
+                               preamble=pre, members=plan.get("members"))
     if pipe is not None:
         pipe.read_cap = 4 * len(data) + 64
     try:
